@@ -21,7 +21,7 @@ pub fn spec() -> Spec {
     Spec {
         prop: "C09",
         level: "exploration",
-        rule: "Structure-aware fuzzing of every registered method (names from the real method table) against the real engine in-process: well-formed templates with typed mutation (boundary integers, string-typed numbers, empty/odd/non-hex/huge strings, long strings of mixed UTF-8 character widths (any fixed byte offset falls inside a character), every base64 prefix byte, truncated and bomb frames, null/array/object swaps, missing/extra fields, positional vs named), random and mutated bytecode as init code / call data, ABI-valid boundary inputs and ABI-invalid bytes to every custom and standard precompile through eth_call, eth_callMany (with Bitcoin-transaction overrides) and executed transactions, in engine states {empty, initialised, mid-block, after reorg, after clearCaches}. Oracles: process-wide panic hook (any panic while serving = violation; the shipped binary aborts), a liveness probe after requests (eth_blockNumber, a block read, and a write round that must raise the height by exactly one), logical hang witnesses (brc20_mine(k) must return with height = start + k), watchdog => inconclusive. Sanitizer pass: on one shard in eight a small worker of this check is re-executed under valgrind memcheck (every native library instrumented: RocksDB, zstd, secp256k1, the revm precompile back ends); any memcheck report = violation. The build mirrors release arithmetic (overflow checks off). Non-trivial = request that reached a handler; distinct by (method, outcome class, mutation class).",
+        rule: "Structure-aware fuzzing of every registered method (names from the real method table) against the real engine in-process: well-formed templates with typed mutation (boundary integers, string-typed numbers, empty/odd/non-hex/huge strings, long strings of mixed UTF-8 character widths (any fixed byte offset falls inside a character), every base64 prefix byte, truncated and bomb frames, null/array/object swaps, missing/extra fields, positional vs named), random and mutated bytecode as init code / call data, ABI-valid boundary inputs and ABI-invalid bytes to every custom and standard precompile through eth_call, eth_callMany (with Bitcoin-transaction overrides) and executed transactions, in engine states {empty, initialised, mid-block, after reorg, after clearCaches}. Oracles: process-wide panic hook (any panic while serving = violation; the shipped binary aborts), a liveness probe after requests (eth_blockNumber, a block read, and a write round that must raise the height by exactly one), logical hang witnesses (brc20_mine(k) must return with height = start + k), watchdog => inconclusive, unless the cheapest database read then hangs twice as well while a request that needs no database is answered at once (wedged server = violation). Sanitizer pass: on one shard in eight a small worker of this check is re-executed under valgrind memcheck (every native library instrumented: RocksDB, zstd, secp256k1, the revm precompile back ends); any memcheck report = violation. The build mirrors release arithmetic (overflow checks off). Non-trivial = request that reached a handler; distinct by (method, outcome class, mutation class).",
         assumptions: vec![
             "the fake Bitcoin node is up: loss of the node and its documented 'Bitcoin RPC unreachable' panic are environment faults".into(),
             "brc20_mine is only asked for small counts: running time proportional to the requested count is by design".into(),
@@ -336,6 +336,8 @@ struct Fz {
     state: &'static str,
     open_block: Option<(u64, String, u64)>,
     height: i64,
+    /// nonce of a signed transaction of signer 53 that is waiting in the pool (to be replaced next)
+    waiting: Option<u64>,
 }
 
 fn hexq(r: &Resp) -> Option<u64> {
@@ -382,7 +384,7 @@ impl Fz {
         let height = hexq(&inst.call("eth_blockNumber", json!([]))).map(|h| h as i64).unwrap_or(-1);
         let height = if state == "empty" { -1 } else { height };
         st.next_height = (height + 1) as u64;
-        Some(Fz { inst, st, state, open_block, height })
+        Some(Fz { inst, st, state, open_block, height, waiting: None })
     }
 }
 
@@ -453,6 +455,24 @@ fn fuzz(ctx: &WorkerCtx, rep: &mut WorkerReport, rng: &mut Rng, state: &'static 
                     1 => ("eth_call".into(), json!([{"data": hist::hx(&code)}]), "program-simulated-create"),
                     _ => ("brc20_call".into(), json!({"from_pkscript": PK, "contract_address": fz.st.tool, "data": hist::hx(&code), "timestamp": ts, "hash": h, "tx_idx": idx, "inscription_id": format!("c09-prog-{}", fz.st.n), "inscription_byte_len": len, "op_return_tx_id": hist::ZERO_HASH}), "program-calldata"),
                 }
+            }
+            4 if fz.state != "empty" => {
+                // a well-formed signed transaction ahead of its account nonce (it waits), and next time
+                // a different or identical one for the same nonce (replacement / re-inscription)
+                let s = Signer::new(53);
+                let cur = hist::account_nonce(&mut fz.inst, &s.addr);
+                let (nonce, class) = match fz.waiting.take() {
+                    Some(n) if n > cur => (n, "waiting-nonce-replaced"),
+                    _ => {
+                        let n = cur + rng.range(1, 4);
+                        fz.waiting = Some(n);
+                        (n, "waiting-nonce-parked")
+                    }
+                };
+                let payload = if class == "waiting-nonce-replaced" && rng.chance(1, 3) { 1 } else { fz.st.n };
+                let raw = s.sign(Some(rpc::chain_id_for("regtest")), nonce, Some(hist::parse_addr(&fz.st.tool)), &asm::tool_call(asm::OP_INC, &[asm::word_u64(1 + payload % 7)], &[]));
+                let (ts, h, idx) = fz.open_block.clone().unwrap_or((50 + fz.st.n, fz.st.fresh_hash.clone(), 0));
+                ("brc20_transact".into(), json!({"raw_tx_data": format!("0x{}", raw), "timestamp": ts, "hash": h, "tx_idx": idx, "inscription_id": format!("c09-w-{}", fz.st.n), "inscription_byte_len": 100000, "op_return_tx_id": hist::ZERO_HASH}), class)
             }
             3 => {
                 // mine with small counts incl. zero (logical hang witness below)
@@ -545,6 +565,18 @@ fn fuzz(ctx: &WorkerCtx, rep: &mut WorkerReport, rng: &mut Rng, state: &'static 
                             violation(rep, "C09", ctx.seed, "mine-overrun", format!("brc20_mine(block_count={}) did not return and the height ran from {} to {} and keeps growing", want, start_height, h), json!({"engine_state": state, "params": params}));
                             return None;
                         }
+                    }
+                }
+                // logical witness for a wedged server: the cheapest database read does not return either,
+                // while a request that needs no database (eth_chainId) is answered at once - the machine
+                // is not starved, the database lock is held for good
+                if h.is_none() {
+                    let cfg_only = fz.inst.call("eth_chainId", json!([]));
+                    let again = fz.inst.call("eth_blockNumber", json!([]));
+                    if cfg_only.is_ok() && matches!(again, Resp::Timeout) {
+                        violation(rep, "C09", ctx.seed, &format!("wedged-after-hang:{}:{}", method, mclass), format!("{} never returned, and afterwards eth_blockNumber does not return either (twice, {} s each) while eth_chainId is answered at once: the server is wedged", method, fz.inst.timeout.as_secs()),
+                            json!({"engine_state": state, "method": method, "params": params, "class": mclass}));
+                        return None;
                     }
                 }
                 rep.inconclusive(format!("{} did not return within the watchdog (state {}, params {})", method, state, params.to_string().chars().take(200).collect::<String>()));
